@@ -350,8 +350,20 @@ impl<'c, 'd> Parser<'c, 'd> {
 
             // We need all parameters to this SpecConstantOp.
             for loperand in g.operands {
-                if loperand.kind != GOpKind::IdResultType && loperand.kind != GOpKind::IdResult {
-                    operands.append(&mut self.parse_operand(loperand.kind)?);
+                match loperand.kind {
+                    GOpKind::IdResultType | GOpKind::IdResult => continue,
+                    // Operands whose decoding depends on the enclosing
+                    // instruction cannot be embedded; no specialization
+                    // constant operation has them.
+                    GOpKind::LiteralContextDependentNumber
+                    | GOpKind::PairLiteralIntegerIdRef
+                    | GOpKind::LiteralSpecConstantOpInteger => {
+                        return Err(State::SpecConstantOpIntegerIncorrect(
+                            self.decoder.offset(),
+                            self.inst_index,
+                        ))
+                    }
+                    _ => operands.append(&mut self.parse_operand(loperand.kind)?),
                 }
             }
             Ok(operands)
